@@ -5,7 +5,7 @@ from qce_circuit import DeclarativeCircuit
 from qce_circuit.addon_stim import to_stim
 from qce_circuit.addon_stim.circuit_operations import DetectorOperation, LogicalObservableOperation, CoordinateShiftOperation
 from qce_circuit.structure import circuit_operations as co
-from mc import world
+from mc import world, triage
 from mc.engine import Family, Res
 from mc.interp import build, count_events
 from mc.props.c05 import AllClassSpace
@@ -160,12 +160,13 @@ class LibraryFamily(Family):
         un = c.apply_modifiers()
         got2 = judge(res, case, un, 'unrolled')
         f2 = to_stim(un).flattened()
-        # "identical program": Stim's own canonical form (REPEAT unrolled, coordinate shifts applied to the detectors);
-        # the literal position of a SHIFT_COORDS between two detectors-free stretches is not part of the program's meaning
-        if expand(f1) != expand(f2):
-            res.fail('C08-library-identical', 'constructor input %r: exported program differs before/after unrolling' % (case,))
-        if [g for g in got if g[0] != 'SHIFT_COORDS'] != [g for g in got2 if g[0] != 'SHIFT_COORDS']:
-            res.fail('C08-library-order', 'constructor input %r: gate/measurement/annotation order differs before/after unrolling' % (case,))
+        if got != got2:
+            # listed finding F11: only the position of SHIFT_COORDS differs and Stim's canonical form (REPEAT unrolled,
+            # coordinate shifts applied to the detectors) is the same program; anything else is a new violation
+            if triage.shift_only_difference(got, got2, lambda g: g[0] == 'SHIFT_COORDS') and expand(f1) == expand(f2):
+                res.fail('C08-' + triage.KF_SHIFT_POSITION, 'constructor input %r: SHIFT_COORDS is exported at a different position before/after unrolling' % (case,))
+            else:
+                res.fail('C08-library-identical', 'constructor input %r: exported program differs before/after unrolling' % (case,))
         res.outcome = tuple(got)
         res.states = [res.outcome]
         res.transitions = 3
